@@ -189,7 +189,12 @@ crd write conv --command cmt`,
 		if err != nil {
 			return err
 		}
-		return writeYamlOutput(cmd, wArgs.instances)
+		if len(instances) > 0 {
+			// keep flag overrides
+			x, v := instances[0], wArgs.instances[0]
+			x.BPM, x.Velocity, x.Meter, x.Key = v.BPM, v.Velocity, v.Meter, v.Key
+		}
+		return writeYamlOutput(cmd, instances)
 	},
 }
 
